@@ -99,6 +99,23 @@ if __name__ == "__main__":
     if count:
         print("done", count)
 '''
+CQS_TS = '''class Basket {
+  private items: string[] = [];
+
+  add(item: string): this {
+    const size = measure(this.items);
+    this.items.push(item + size);
+    return this;
+  }
+
+  takeAndCount(repo: Store, item: string): number {
+    const current = repo.find(item);
+    repo.save(item);
+    repo.flush();
+    return current;
+  }
+}
+'''
 SRP_CFG = "srp:\n  max_loc: 12\n  max_methods: 50\n  check_keywords: false\n"
 BASES = [(b, C04.CONFIG) for b in C04.BASES] + [
     (("srp", "srp", "py", {"main.py": srp_boundary("py")}), C04.CONFIG + SRP_CFG),
@@ -108,6 +125,8 @@ BASES = [(b, C04.CONFIG) for b in C04.BASES] + [
     (("nesting", "nesting", "ts", {"main.ts": ELIF_TS}), C04.CONFIG),
     # a script whose last statement is the `__main__` block (prints inside it are exempt, the one outside is not)
     (("improper-logging", "print-statements", "py", {"main.py": MAIN_PY}), C04.CONFIG),
+    # TypeScript command-query separation: a fluent method (ends in `return this;`, exempt) next to a mixed one
+    (("cqs", "cqs", "ts", {"main.ts": CQS_TS}), C04.CONFIG),
 ]
 
 
@@ -310,7 +329,7 @@ def run(chk) -> None:
     quick = chk.tier == "quick"
     drive.preload()
     chk.rule = ("edit sequences of length <= 2 (thorough: <= 3) over {blank, comment} x 4 positions (and, as single edits, x every line boundary of the file), trailing whitespace x 2 "
-                "positions, reindent, CRLF, BOM, appended unrelated code, renaming of local identifiers (enumerated by TLC from Edits.tla) x 26 "
+                "positions, reindent, CRLF, BOM, appended unrelated code, renaming of local identifiers (enumerated by TLC from Edits.tla) x 27 "
                 "linter x language bases; all rules linted before/after; non-trivial = base has findings; "
                 "distinct by (base, edit sequence)")
     chk.assumptions = ["comment lines are directive-free and indented like the following line; the probe files "
